@@ -27,7 +27,7 @@ CONSTANTS Models,      \* subset of {"pheno", "mox2", "linear", "pred", "flag"};
 VARIABLES m, hist, ver, nm
 vars == <<m, hist, ver, nm>>
 
-Structural == {"S:FO", "S:PER", "S:TR", "S:LAG", "S:ZOE", "S:MM"}
+Structural == {"S:IVORAL", "S:FO", "S:PER", "S:TR", "S:LAG", "S:ZOE", "S:MM"}
 Extension  == {"X:ADDIIV", "X:COVLIN", "X:COVCAT", "X:COVPW", "X:IOV", "X:BOXCOX", "X:COMB", "X:IIVRUV", "X:POWER", "X:TV"}
 Data       == {"D:FIXTH", "D:ZEROOM", "D:FIXVAR1"}
 Preserving == {"P:MU", "P:DECL", "P:CLEAN", "P:SIMP", "P:GREEK", "P:RENAME", "P:SOLVE", "P:GENERIC", "P:NONMEM",
@@ -38,7 +38,8 @@ AllActs == Structural \cup Extension \cup Data \cup Preserving \cup Observe
 \* the public function behind each token (documentation of the binding; the driver has the same table)
 Function ==
     [t \in AllActs |->
-        CASE t = "S:FO" -> "set_first_order_absorption" [] t = "S:PER" -> "add_peripheral_compartment"
+        CASE t = "S:IVORAL" -> "CompartmentalSystemBuilder.set_dose(CENTRAL, Bolus(AMT, admid=2)) on a model with depot"
+          [] t = "S:FO" -> "set_first_order_absorption" [] t = "S:PER" -> "add_peripheral_compartment"
           [] t = "S:TR" -> "set_transit_compartments(2)" [] t = "S:LAG" -> "add_lag_time"
           [] t = "S:ZOE" -> "set_zero_order_elimination" [] t = "S:MM" -> "set_michaelis_menten_elimination"
           [] t = "X:ADDIIV" -> "add_iiv(parameter without eta, exp)"
@@ -80,7 +81,8 @@ Start(name) ==
      ext  |-> {},                     \* extensions applied
      \* "flag": a $PRED model with a fixed theta, an initialisation FLAG = 1 and an IF/ELSE whose last branch is 0
      fixth |-> name = "flag", zeroom |-> FALSE,
-     fixvar |-> FALSE]                \* a variance fixed to a NON-ZERO value: its eta / epsilon is still random
+     fixvar |-> FALSE,
+     ivoral |-> FALSE]                \* a second dosing compartment (IV bolus into CENTRAL besides the oral dose into DEPOT)                \* a variance fixed to a NON-ZERO value: its eta / epsilon is still random
 
 Init == /\ \E n \in Models : m = Start(n)
         /\ hist = <<>> /\ ver = 0 /\ nm = <<>>
@@ -93,7 +95,11 @@ PK == m.model \in {"pheno", "mox2"}
 \* enabledness = documented preconditions + what the corpus offers; the "never run" pairs and the known
 \* totality defects of setter sequences are C08's, not part of this alphabet
 Enabled(t) ==
-    CASE t = "S:FO"  -> PK /\ m.ode /\ ~m.abs /\ m.tr = 0 /\ m.names = "orig"
+    \* two dosing compartments: the closed form of solve_ode_system has to start EVERY dosed compartment at its dose.
+    \* (the other structural setters are not defined for such systems: they end the structural part of a history)
+    CASE t = "S:IVORAL" -> PK /\ m.ode /\ m.abs /\ m.per = 0 /\ m.tr = 0 /\ ~m.lag /\ m.elim = "FO" /\ ~m.ivoral /\ m.names = "orig"
+      [] t \in Structural /\ m.ivoral -> FALSE
+      [] t = "S:FO"  -> PK /\ m.ode /\ ~m.abs /\ m.tr = 0 /\ m.names = "orig"
       [] t = "S:PER" -> PK /\ m.ode /\ m.per < 2 /\ m.elim = "FO" /\ m.names = "orig"
       [] t = "S:TR"  -> PK /\ m.ode /\ m.tr = 0 /\ ~m.lag /\ m.abs /\ m.elim = "FO" /\ m.names = "orig"
       [] t = "S:LAG" -> PK /\ m.ode /\ ~m.lag /\ m.tr = 0 /\ m.names = "orig"
@@ -123,7 +129,8 @@ Enabled(t) ==
       [] OTHER -> TRUE
 
 Apply(t) ==
-    CASE t = "S:FO"  -> [m EXCEPT !.abs = TRUE]
+    CASE t = "S:IVORAL" -> [m EXCEPT !.ivoral = TRUE]
+      [] t = "S:FO"  -> [m EXCEPT !.abs = TRUE]
       [] t = "S:PER" -> [m EXCEPT !.per = @ + 1]
       [] t = "S:TR"  -> [m EXCEPT !.tr = 2]
       [] t = "S:LAG" -> [m EXCEPT !.lag = TRUE]
